@@ -10,4 +10,5 @@ INVARIANT AllEqual
 INVARIANT ScaleIsOne
 INVARIANT EdgesAgree
 INVARIANT PlacementAgrees
+INVARIANT CentrePlacementAgrees
 CHECK_DEADLOCK FALSE
